@@ -136,6 +136,10 @@ type Net struct {
 	// uncompressed (a legitimate choice: the client offered identity).
 	IdentityForward bool
 	OnReplay        func(s *Stream, r *ReplayInfo)
+	// OnForeignCursor is called when a request of one stream carries a cursor
+	// that was first seen in a request of another stream.
+	OnForeignCursor func(st, owner *Stream, x *Xchg)
+	curOwner        map[string]*Stream
 	// Broken is set when harness code inside the network panicked.
 	Broken string
 }
@@ -195,6 +199,9 @@ func (n *Net) RoundTrip(req *http.Request) (resp *http.Response, err error) {
 
 func (n *Net) roundTrip(req *http.Request) (*http.Response, error) {
 	ctx := req.Context()
+	// a real transport reads the request body some time after it was handed
+	// the request (another goroutine writes it to the connection)
+	y("net.before-body-read")
 	var body []byte
 	if req.Body != nil {
 		body, _ = io.ReadAll(req.Body)
@@ -215,6 +222,20 @@ func (n *Net) roundTrip(req *http.Request) (*http.Response, error) {
 	st.Reqs = append(st.Reqs, x)
 	// The invariant lives at the network: an exchange-stream cursor value must
 	// never appear in two request bodies.
+	if x.HasCur && st.Kind != "unknown" {
+		// ... and a cursor belongs to the stream the server minted it for: it
+		// must never travel in a request of another stream
+		if n.curOwner == nil {
+			n.curOwner = map[string]*Stream{}
+		}
+		if owner, seen := n.curOwner[x.Cursor]; seen && owner != st {
+			if n.OnForeignCursor != nil {
+				n.OnForeignCursor(st, owner, x)
+			}
+		} else if !seen {
+			n.curOwner[x.Cursor] = st
+		}
+	}
 	if st.Kind == "exchange" && x.HasCur {
 		if st.curIdx == nil {
 			st.curIdx = map[string]int{}
